@@ -54,6 +54,25 @@ func seedPick(list []string, seed int64, n int) []string {
 // newWorker creates per-goroutine state. It returns false if the internal
 // deadline cut the enumeration short.
 func forClasses[W any](r *ev.Run, classes []universe.Class, o universe.Opts, newWorker func() W, fn func(w W, p *refchess.Pos)) bool {
+	return forClassShards(r, classes, o, nil, newWorker, fn)
+}
+
+// forCastlingPositions enumerates the positions of the classes that carry castling rights: White's king on e1
+// (any black king), and Black's king on e8 (any white king); positions without rights are skipped.
+func forCastlingPositions[W any](r *ev.Run, classes []universe.Class, newWorker func() W, fn func(w W, p *refchess.Pos)) {
+	o := universe.Opts{OnlySpecial: true, NoEP: true}
+	forClassShards(r, classes, o, []int{4}, newWorker, fn)
+	o.BlackKingIn = []int{60}
+	forClassShards(r, classes, o, nil, newWorker, func(w W, p *refchess.Pos) {
+		if p.Sq[4] == refchess.King && p.Castle&3 != 0 {
+			return // already visited by the first enumeration
+		}
+		fn(w, p)
+	})
+}
+
+// forClassShards is forClasses restricted to the given white-king squares (nil = all 64).
+func forClassShards[W any](r *ev.Run, classes []universe.Class, o universe.Opts, shards []int, newWorker func() W, fn func(w W, p *refchess.Pos)) bool {
 	type job struct {
 		c  universe.Class
 		sh int
@@ -61,6 +80,17 @@ func forClasses[W any](r *ev.Run, classes []universe.Class, o universe.Opts, new
 	var jobs []job
 	for _, c := range classes {
 		for sh := 0; sh < 64; sh++ {
+			if shards != nil {
+				in := false
+				for _, x := range shards {
+					if x == sh {
+						in = true
+					}
+				}
+				if !in {
+					continue
+				}
+			}
 			jobs = append(jobs, job{c, sh})
 		}
 	}
